@@ -44,6 +44,7 @@ type Object struct {
 	base  bool // allocated before the checkpoint (copy-on-write per path)
 	label string
 	input bool // harness input buffer (C02/C04 write barrier)
+	frozen bool // read-only snapshot (SliceToArrayPointer)
 }
 
 type PtrV struct {
